@@ -55,7 +55,9 @@ NoNegPow(e) == (IntPow(e) => e.b.v.n >= 0) /\ (e.t = "Quotient" => ~HasVar(e.b))
 
 \* the term collector's input fragment: a sum of multiplicative terms
 MultiplicativeTerm(c) == c.t \in {"Product", "Power", "Var", "Call", "CallKw", "Sub", "Look"} \/ ~HasVar(c)
-CollectFragment(e) == e.t = "Sum" => \A i \in 1..Len(e.c) : MultiplicativeTerm(e.c[i])
+\* (the collector is an identity mapper: it collects in EVERY sum of the input, so every sum - not
+\* only the root - has to be a sum of multiplicative terms)
+CollectFragment(e) == \A s \in SubExprs(e) : s.t = "Sum" => \A i \in 1..Len(s.c) : MultiplicativeTerm(s.c[i])
 
 Box == <<
   [x |-> IntV(2), y |-> IntV(-3), z |-> IntV(1), p |-> IntV(3), b |-> BoolV(TRUE),
